@@ -7,7 +7,7 @@ import re
 from typing import Optional
 
 from .. import rx
-from ..model import AnalysisError, ClassInfo, Const, FuncInfo, Program, dotted, norm, walk_no_nested
+from ..model import AnalysisError, ClassInfo, Const, CustomProp, FuncInfo, Program, dotted, norm, self_attr, walk_no_nested
 from ..report import RuleContext
 
 EXPLANATION = (
@@ -468,8 +468,156 @@ def run(ctx: RuleContext, p: Program) -> None:
     ctx.try_rule(rule_default_lit, p, g, 'DEFAULT-LIT')
     ctx.try_rule(rule_bool_table, p, g, 'BOOL-TABLE')
     ctx.try_rule(rule_reg_rule, p, g, 'REG-RULE')
+    ctx.try_rule(rule_rawtext_cover, p, g, 'RAWTEXT-COVER')
+    ctx.try_rule(rule_split_total, p, g, 'SPLIT-TOTAL')
     ctx.not_decided += ['from_value(v).value == v for arbitrary string values', 'decimal value domain of Number (str(Decimal) may use '
                         'exponents; callers pass abs(value))', 'that produced text lexes as exactly one token in context']
     ctx.assumptions += ['frozen table of str.splitlines break characters', 'frozen strftime table for this platform (%Y unpadded '
                         'below 1000 on glibc; %m, %d two digits)', 'lark compiles terminals as its loader does for the repository',
                         'anchors / look-around in terminals constrain the context, not the lexeme text']
+
+
+# ====================================================================== RAWTEXT-COVER / SPLIT-TOTAL (added after seeded round 3)
+def rule_rawtext_cover(ctx: RuleContext, p: Program, g: rx.Grammar, rid: str) -> None:
+    ctx.rule(rid, 'a token class that caches what _parse_value derives from its text keeps every cached part in step: its raw_text '
+                  'setter assigns every attribute that from_raw_text fills from _parse_value, and the setter of each such part stores '
+                  'the new part and re-renders the text with _format_value over all parts (the new one in its own slot)')
+    n = 0
+    for c in p.token_model_classes() + [p.cls('SingleValueRawTokenModel', 'models.internal.base_token_models')]:
+        cp = c.attrs.get('raw_text')
+        if not isinstance(cp, CustomProp) or cp.fset is None:
+            continue
+        init = p.try_method(c, '__init__')
+        frt = p.try_method(c, 'from_raw_text')
+        if init is None or frt is None:
+            continue
+        # which constructor parameters does from_raw_text fill from the parse of the text?
+        derived_names: set[str] = set()
+        parse_calls = [x for x in walk_no_nested(frt.node) if isinstance(x, ast.Call) and norm(x.func) in ('cls._parse_value', 'self._parse_value')]
+        if not parse_calls:
+            continue
+        for a in walk_no_nested(frt.node):
+            if isinstance(a, ast.Assign) and any(pc is a.value for pc in parse_calls):
+                for t in a.targets:
+                    derived_names |= {x.id for x in ast.walk(t) if isinstance(x, ast.Name)}
+        ctor = [x for x in walk_no_nested(frt.node) if isinstance(x, ast.Call) and norm(x.func) == 'cls']
+        if len(ctor) != 1:
+            raise AnalysisError(f'RAWTEXT-COVER: {c.name}.from_raw_text does not build the token with one cls(...) call')
+        iparams = init.params[1:]
+        derived_params: list[str] = []
+        for i, arg in enumerate(ctor[0].args):
+            if i < len(iparams) and ((isinstance(arg, ast.Name) and arg.id in derived_names) or any(pc is arg for pc in parse_calls)):
+                derived_params.append(iparams[i])
+        for k in ctor[0].keywords:
+            if k.arg and ((isinstance(k.value, ast.Name) and k.value.id in derived_names) or any(pc is k.value for pc in parse_calls)):
+                derived_params.append(k.arg)
+        attr_of: dict[str, str] = {}
+        for a in walk_no_nested(init.node):
+            if isinstance(a, ast.Assign) and len(a.targets) == 1 and self_attr(a.targets[0]) and isinstance(a.value, ast.Name) and a.value.id in derived_params:
+                attr_of[a.value.id] = self_attr(a.targets[0])      # type: ignore[assignment]
+        derived = [attr_of[x] for x in derived_params if x in attr_of]
+        if not derived:
+            continue
+        n += 1
+        site = f'{c.module.name.split(".", 1)[1]}:{c.name}'
+        assigned: set[str] = set()
+        for a in walk_no_nested(cp.fset.node):
+            if isinstance(a, ast.Assign):
+                for t in a.targets:
+                    for x in ([t] if not isinstance(t, ast.Tuple) else t.elts):
+                        sa = self_attr(x)
+                        if sa:
+                            assigned.add(sa)
+        missing = [d for d in derived if d not in assigned]
+        ctx.check(not missing, rid, f'{site}.raw_text[set]', f'assigns {sorted(assigned)}',
+                  f'the raw_text setter of {c.name} re-parses the text but does not store {missing}: after `t.raw_text = ...` the cached '
+                  f'{", ".join(m.lstrip("_") for m in missing)} still describes the old text, and the next value/indent assignment re-renders the '
+                  f'token from it', cp.fset.where, note=f'parse-derived attributes {derived} all assigned')
+        # the setter of each derived part
+        fmt = p.try_method(c, '_format_value')
+        for d in derived:
+            prop = next((v for v in c.attrs.values() if isinstance(v, CustomProp) and v.fset is not None and v.name == d.lstrip('_')), None)
+            if prop is None or prop.fset is None or fmt is None:
+                continue
+            newv = prop.fset.params[1]
+            stores = any(isinstance(a, ast.Assign) and any(self_attr(t) == d for t in a.targets) and norm(a.value) == newv
+                         for a in walk_no_nested(prop.fset.node))
+            renders = [x for x in walk_no_nested(prop.fset.node) if isinstance(x, ast.Call) and norm(x.func) == 'self._update_raw_text' and x.args
+                       and isinstance(x.args[0], ast.Call) and norm(x.args[0].func) in ('self._format_value', 'cls._format_value')]
+            good = False
+            if stores and len(renders) == 1:
+                fargs = [norm(a) for a in renders[0].args[0].args]           # type: ignore[attr-defined]
+                want = []
+                for dd in derived:
+                    want.append({newv} if dd == d else {f'self.{dd}', f'self.{dd.lstrip("_")}'} | ({newv} if dd == d else set()))
+                fparams = fmt.params[1:]
+                # _format_value takes the parts in its own order; match by parameter name
+                order = [next((i for i, dd in enumerate(derived) if dd.lstrip('_') == fp), None) for fp in fparams]
+                good = len(fargs) == len(fparams) and all(o is not None and fargs[i] in want[o] for i, o in enumerate(order))
+            ctx.check(good, rid, f'{site}.{prop.name}[set]', 'stores the part and re-renders from all parts',
+                      f'the setter of {c.name}.{prop.name} does not (only) store the new {prop.name} and re-render the text from every cached part '
+                      f'with the new one in its slot', prop.fset.where, note=f'self.{d} = {newv}; _update_raw_text(_format_value(...))')
+    if n < 2:
+        raise AnalysisError(f'RAWTEXT-COVER: only {n} token classes with a re-parsing raw_text setter found (2 confirmed by hand)')
+
+
+def rule_split_total(ctx: RuleContext, p: Program, g: rx.Grammar, rid: str) -> None:
+    ctx.rule(rid, 'a _parse_value that unpacks k integer fields from a split of the text accepts every lexeme of its terminal: the '
+                  'terminal\'s language is included in digits (separator digits){k-1} for the separator set actually split on')
+    n = 0
+    for c in p.registered('token_model'):
+        prs = c.attrs.get('_parse_value')
+        rule = p.class_const(c, 'RULE')
+        tname = rule.value if isinstance(rule, ast.Constant) else None
+        if not isinstance(prs, FuncInfo) or tname not in g.terminals:
+            continue
+        raw = prs.params[1]
+        env = {norm(a.targets[0]): a.value for a in walk_no_nested(prs.node)
+               if isinstance(a, ast.Assign) and len(a.targets) == 1 and isinstance(a.targets[0], ast.Name)}
+        unpack = [a for a in walk_no_nested(prs.node) if isinstance(a, ast.Assign) and len(a.targets) == 1 and isinstance(a.targets[0], ast.Tuple)]
+        for a in unpack:
+            k = len(a.targets[0].elts)      # type: ignore[attr-defined]
+            v = a.value
+            conv = None
+            if isinstance(v, ast.Call) and norm(v.func) == 'map' and len(v.args) == 2:
+                conv, v = norm(v.args[0]), v.args[1]
+            elif isinstance(v, (ast.GeneratorExp, ast.ListComp)) and len(v.generators) == 1 and isinstance(v.elt, ast.Call) and len(v.elt.args) == 1:
+                conv, v = norm(v.elt.func), v.generators[0].iter
+            if conv != 'int':
+                continue
+            seps = _split_seps(v, raw, env)
+            if seps is None:
+                continue
+            n += 1
+            site = f'{c.module.name.split(".", 1)[1]}:{c.name}._parse_value'
+            alts = []
+            for s in seps:
+                alts.append('[0-9]+' + f'(?:{s}[0-9]+)' * (k - 1))
+            accepted = rx.from_regex('|'.join(f'(?:{x})' for x in alts), re.S)
+            ok, w = rx.included(g.terminal_nfa(tname), accepted)
+            ctx.check(ok, rid, site, f'split on {seps}', f'the terminal {tname} admits {w!r}, which this _parse_value cannot read as {k} integers '
+                      f'(it splits on {" or else ".join(seps)}): a legal lexeme makes parse / from_raw_text / the raw_text setter raise',
+                      prs.where, note=f'{tname} included in {k} integer fields separated by {seps}')
+    if n < 1:
+        raise AnalysisError('SPLIT-TOTAL: no split-and-unpack reader found (Date._parse_value confirmed by hand)')
+
+
+def _split_seps(v: ast.AST, raw: str, env: dict[str, ast.AST], depth: int = 0) -> Optional[list[str]]:
+    """regexes of the separator a split expression uses, one per case (None: not a recognised split of the raw text)"""
+    if depth > 3:
+        return None
+    if isinstance(v, ast.Name) and v.id in env:
+        return _split_seps(env[v.id], raw, env, depth + 1)
+    if isinstance(v, ast.Call) and norm(v.func) == 're.split' and len(v.args) == 2 and norm(v.args[1]) == raw \
+            and isinstance(v.args[0], ast.Constant) and isinstance(v.args[0].value, str):
+        return [f'(?:{v.args[0].value})']
+    if isinstance(v, ast.Call) and isinstance(v.func, ast.Attribute) and v.func.attr == 'split' and norm(v.func.value) == raw and len(v.args) == 1:
+        s = v.args[0]
+        if isinstance(s, ast.Name) and s.id in env:
+            s = env[s.id]
+        if isinstance(s, ast.Constant) and isinstance(s.value, str):
+            return [_esc(s.value)]
+        if isinstance(s, ast.IfExp) and isinstance(s.body, ast.Constant) and isinstance(s.orelse, ast.Constant):
+            # `A if A in raw else B`: a word is read with A when it contains A, else with B; with digit-only fields these are the two cases
+            return [_esc(str(s.body.value)), _esc(str(s.orelse.value))]
+    return None
